@@ -61,6 +61,10 @@ class IdentityLinearOperator(ConstantDiagLinearOperator):
         else:
             return rhs
 
+    def _bilinear_derivative(self, left_vecs: Tensor, right_vecs: Tensor) -> Tuple[Optional[Tensor], ...]:
+        # The identity has no tensor arguments (representation() is empty): one gradient per argument means none
+        return ()
+
     @cached(name="cholesky", ignore_args=True)
     def _cholesky(
         self: Float[LinearOperator, "*batch N N"], upper: Optional[bool] = False
